@@ -17,10 +17,14 @@ type Monitor[C Conn] struct {
 	lastActivity atomic.Value
 	duration     time.Duration
 	onInactive   OnInactiveFunc[C]
+	onActive     func()
 }
 
 func (m *Monitor[C]) Notify() {
 	m.lastActivity.Store(time.Now())
+	if m.onActive != nil {
+		m.onActive()
+	}
 }
 
 func (m *Monitor[C]) LastActivity() time.Time {
@@ -39,6 +43,17 @@ func New[C Conn](duration time.Duration, onInactive OnInactiveFunc[C]) *Monitor[
 	m := &Monitor[C]{
 		duration:   duration,
 		onInactive: onInactive,
+	}
+	m.Notify()
+	return m
+}
+
+// NewWithOnActive creates a monitor which additionally calls onActive whenever activity is notified.
+func NewWithOnActive[C Conn](duration time.Duration, onInactive OnInactiveFunc[C], onActive func()) *Monitor[C] {
+	m := &Monitor[C]{
+		duration:   duration,
+		onInactive: onInactive,
+		onActive:   onActive,
 	}
 	m.Notify()
 	return m
